@@ -43,6 +43,8 @@ struct Explorer {
   PortSide P;
   bool use_ref = true, use_inv = false;
   double tau = 1e-6;
+  long nonrobust = 0;
+  bool in_sweep = false;
   long execs = 0, model_runs = 0, mism = 0, amb = 0, horizon = 0, edges = 0, nthr = 0, validated = 0, san = 0;
   long ccap = 200000;
   bool ccap_hit = false;
@@ -120,9 +122,12 @@ struct Explorer {
       // rejection tests of the beta samplers: 2e-4 (short constants of the reference inside the Fermi function)
       // (a near-tie inside the golden-section search keeps either half of a bracket that still contains the maximum of a
       // unimodal spectrum: the located maximum moves by O(curvature x tolerance^2) ~ 1e-5; 5e-4 is demanded then)
-      double tau_shape = d0ref::mon.min_qmargin < tau ? 5e-4 : 2e-4;
-      o.robust = o.margin >= tau && d0ref::mon.min_smargin >= std::max(tau, tau_shape);
-      o.margin = std::min(o.margin, d0ref::mon.min_smargin);
+      double tau_shape = d0ref::mon.min_qmargin < 1e-6 ? 5e-4 : 2e-4;
+      // three margin classes: branch decisions and other literal tests (1e-6), the double-beta kernel's tests against its
+      // tabulated / integrated spectra (tau = 10 x the measured table noise of this configuration), beta-sampler shapes
+      o.robust = o.margin >= 1e-6 && d0ref::mon.min_tmargin >= tau && d0ref::mon.min_smargin >= tau_shape;
+      o.margin = std::min(std::min(o.margin, d0ref::mon.min_smargin), d0ref::mon.min_tmargin);
+      if (!o.robust && count && !in_sweep) { nonrobust++; if (getenv("DX_DEBUG")) fprintf(stderr, "nonrobust: margin=%g line=%d tmargin=%g smargin=%g qmargin=%g forced=%s\n", d0ref::mon.min_margin, d0ref::mon.min_margin_line, d0ref::mon.min_tmargin, d0ref::mon.min_smargin, d0ref::mon.min_qmargin, vx::forced_to_json(f).c_str()); } // (ladder and sweep probes sit next to a threshold on purpose)
       validated++;
       if (collect_calls && !model_calls.empty() && o.robust) {
         auto keyof = [](const d0ref::CallRec & c) {
@@ -238,6 +243,7 @@ struct Explorer {
   std::vector<Root> discover(const Forced & base, size_t i)
   {
     std::vector<Root> roots;
+    std::vector<double> root_from;
     std::deque<double> work = {0.999999, 0.5, 1e-6};
     int iter = 0;
     while (!work.empty() && iter < 160) {
@@ -245,11 +251,18 @@ struct Explorer {
       work.pop_front();
       iter++;
       for (auto & r : roots_at(base, i, v)) {
+        // the affine solve carries an absolute error of ~1e-12 x (distance of the probe point from the root): an estimate
+        // from a far probe is only good to ~1e-7 relative for a root at 1e-5. The same threshold solved again from a
+        // nearer probe replaces the stored estimate (the finest probe is 1e-7: roots closer than that are one threshold).
         bool isnew = true;
-        for (auto & q : roots)
-          if (std::fabs(q.u - r.u) <= 1e-9 * r.u) isnew = false;
+        for (size_t q = 0; q < roots.size(); q++)
+          if (std::fabs(roots[q].u - r.u) <= 1e-6 * r.u + 1e-11) {
+            isnew = false;
+            if (std::fabs(v - r.u) < root_from[q]) { roots[q].u = r.u; root_from[q] = std::fabs(v - r.u); }
+          }
         if (!isnew) continue;
         roots.push_back(r);
+        root_from.push_back(std::fabs(v - r.u));
         double d = r.literal ? 1e-7 : 1e-3;
         work.push_back(r.u * (1 - d));
         work.push_back(std::min(r.u * (1 + d), 1 - 1e-13));
@@ -318,8 +331,21 @@ struct Explorer {
   // each probe settled with the ladder of DESIGN 1.2 when a model is available
   std::vector<double> alphabet(const Forced & base, size_t i)
   {
-    std::vector<double> al = {1e-12, 0.5, 1 - 1e-12};
+    std::vector<double> al = {0.5};
     bool model = use_ref && R.available;
+    if (!model) { al.push_back(1e-12); al.push_back(1 - 1e-12); }
+    if (model) {
+      // a tail value may sit next to a threshold at the very end of the range (a zero-width last branch, an
+      // `E < 50 eV' test): such an execution cannot be judged, so the same tail is also explored 4 tau inside
+      for (double t : {1e-12, 1 - 1e-12}) {
+        Forced g = base;
+        g[i] = t;
+        Out o = exec(g, false);
+        // (the judgeable variant first: a site reached through both is then expanded under the judgeable prefix)
+        if (!o.robust) al.push_back(t < 0.5 ? 4e-6 : 1 - 4e-6);
+        al.push_back(t);
+      }
+    }
     std::vector<Root> roots = model ? discover(base, i) : discover_port(base, i);
     nthr += (long)roots.size();
     last_roots.clear();
@@ -344,7 +370,7 @@ struct Explorer {
           // that inherits it (the whole rare branch behind it) is non-robust and can only ever be "ambiguous":
           // 4 tau (margin = delta/2) resp. 2e-3 for the shape class, but never beyond the middle of the interval
           // to the neighbouring threshold
-          double dpush = std::max(delta, r.cls == 1 ? 2e-3 : 4 * tau);
+          double dpush = std::max(delta, r.cls == 1 ? 2e-3 : (r.cls == 3 ? std::max(4 * tau, 4e-6) : 4e-6));
           double vp = r.u * (1 + side * dpush);
           double nb = side > 0 ? (k + 1 < roots.size() ? roots[k + 1].u : 1.0) : (k > 0 ? roots[k - 1].u : 0.0);
           double mid = 0.5 * (r.u + nb);
@@ -374,6 +400,7 @@ struct Explorer {
       if (getenv("DX_DEBUG")) fprintf(stderr, "sweep? i=%zu ctx=%08x roots=%zu computed=%d\n", i, last_ctx_for_sweep, roots.size(), (int)computed);
       if (computed) {
         swept.insert(last_ctx_for_sweep);
+        in_sweep = true;
         for (int g = 0; g < 24; g++) {
           Forced b2 = base;
           b2[i - 1] = (g + 0.5) / 24.0;
@@ -392,6 +419,7 @@ struct Explorer {
             }
           }
         }
+        in_sweep = false;
       }
     }
     return al;
@@ -698,7 +726,7 @@ static std::string run_config(const Config & c, const Opts & o)
   }
   js << ",\"table_rel\":" << jnum(table_rel) << ",\"tau\":" << jnum(X.tau) << ",\"toall_port\":" << jnum(X.P.toall) << ",\"toall_ref\":" << jnum(X.R.toall) << ",\"qbb\":" << jnum(X.P.qbb) << ",\"ek\":" << jnum(X.P.ek) << ",\"edlevel\":" << jnum(X.P.edlevel) << ",\"zdbb\":" << jnum(X.P.zdbb) << ",\"init_draws\":" << X.P.init_draws;
   js << ",\"states\":" << X.expanded.size() << ",\"transitions\":" << X.edges << ",\"thresholds\":" << X.nthr << ",\"executions\":" << X.execs << ",\"model_runs\":" << X.model_runs
-     << ",\"sweep_execs\":" << X.sweep_execs << ",\"validated\":" << X.validated << ",\"distinct\":" << X.sigs.size() << ",\"mismatches\":" << X.mism << ",\"ambiguous\":" << X.amb << ",\"horizon\":" << X.horizon
+     << ",\"sweep_execs\":" << X.sweep_execs << ",\"validated\":" << X.validated << ",\"distinct\":" << X.sigs.size() << ",\"mismatches\":" << X.mism << ",\"ambiguous\":" << X.amb << ",\"nonrobust\":" << X.nonrobust << ",\"horizon\":" << X.horizon
      << ",\"san_reports\":" << X.san << ",\"max_draws\":" << X.inv.max_draws << ",\"max_np\":" << X.inv.max_np << ",\"max_kin\":" << jnum(X.inv.max_kin) << ",\"max_excess\":"
      << jnum(X.inv.max_excess) << ",\"max_deficit\":" << jnum(X.inv.max_deficit) << ",\"ccap_hit\":" << (X.ccap_hit ? "true" : "false") << ",\"deadline_hit\":"
      << (X.deadline_hit ? "true" : "false") << ",\"c_exhaustive\":" << (X.c_exhaustive ? "true" : "false") << ",\"layer_execs\":{";
